@@ -28,6 +28,20 @@ FAMILIES = {
     "nested-list-in-binding": lambda d: "{ a = [ " * d + "1" + " ]; }" * d + "\n",
     "nested-default": lambda d: "{ a ? " * d + "1" + " }: a" * d + "\n",
     "nested-neg": lambda d: "- " * d + "x\n",
+    # the same nestings with the nested part on a line of its own (layout decisions differ for multi-line children)
+    "nested-call-newline": lambda d: "f\n(" * d + "x" + ")" * d + "\n",
+    "nested-call-list-newline": lambda d: "f\n[ " * d + "x" + " ]" * d + "\n",
+    "nested-call-set-newline": lambda d: "f\n{ a = " * d + "1" + "; }" * d + "\n",
+    "curried-lambda-newline": lambda d: "a:\n" * d + "x\n",
+    "nested-with-newline": lambda d: "with a;\n" * d + "x\n",
+    "nested-assert-newline": lambda d: "assert a;\n" * d + "x\n",
+    "nested-assert-cond-newline": lambda d: "assert\na;\n" * d + "x\n",
+    "impl-chain-newline": lambda d: "a ->\n" * d + "b\n",
+    "paren-plus-newline": lambda d: "(a +\n" * d + "b" + ")" * d + "\n",
+    "nested-let-newline": lambda d: "let\n  a = 1;\nin\n" * d + "x\n",
+    "nested-if-newline": lambda d: "if a then b else\n" * d + "x\n",
+    "nested-list-newline": lambda d: "[\n" * d + "1" + "\n]" * d + "\n",
+    "nested-set-newline": lambda d: "{\n a =\n" * d + "1" + ";\n}" * d + "\n",
     "long-file": lambda d: "{\n" + "".join(f"  a{i} = {i};\n" for i in range(d * 20)) + "}\n",
 }
 DOCUMENTED = ("ValueError", "NixSyntaxError")
